@@ -36,7 +36,7 @@ pub struct Shape {
 }
 
 const KEEP: &[&str] = &[
-    "obs.send_begin", "send.status", "send.admit", "send.enq", "adm.release", "marker.cas", "obs.send_ret",
+    "obs.send_begin", "send.status", "adm.iter", "marker.iter", "send.admit", "send.enq", "adm.release", "marker.cas", "obs.send_ret",
     "obs.drain_begin", "drain.close", "drain.status", "obs.drain_ret", "obs.consume", "obs.quit",
     "obs.ports_dropped", "status.set", "obs.end", "obs.wrong_ret",
 ];
